@@ -286,6 +286,7 @@ def main_c15(tier):
                           {'run': v['run'], 'how': runmeta.get(v['run']), 'violation': v})
             # design level: exhaustive exploration of the algorithm with crashes, faults and partial writes
             dres = design_model(w, rep, quick)
+            dres['binding'] = bind_design(w, rep, lines, 'instconf15', bool(groups))
             rep.cov.update({
                 'evaluations': nruns, 'distinct_nontrivial': len(points),
                 'rule': 'one evaluation = one run of the real installer under strace; non-trivial distinct = distinct (crash|fault, system call, '
@@ -306,6 +307,152 @@ def main_c15(tier):
         import traceback
         rep.problem('internal error: ' + traceback.format_exc()[-3000:])
     return rep.finish()
+
+
+def abstract_runs(lines):
+    """Projection of InstallFS run traces on the alphabet of Install.tla (see spec/InstallTrace.tla).  Pure
+    classification: destination paths -> their relative name, other files under the skill directory -> temp files,
+    contents -> new / old / torn by hash.  -> (meta, abstract lines, [(first abstract line, last, run id)])"""
+    out, spans = [], []
+    st = {}
+    files, dirs = None, None
+
+    def absfile(p, rec):
+        if rec is None:
+            return {'content': 'absent', 'mode': ''}
+        h = rec['content']
+        if h == st['new'][p]:
+            c = 'new'
+        elif p in st['orig'] and st['orig'][p]['content'] == h:
+            c = 'old'
+        else:
+            c = 'torn'
+        return {'content': c, 'mode': rec['mode']}
+
+    def under(p):
+        return p.startswith(st['skilldir'] + '/')
+
+    def strays(tree):
+        return len([p for p in tree if under(p) and p not in st['rel'] and p not in st['orig']])
+
+    for e in lines:
+        k = e['ev']
+        a = None
+        if k == 'Start':
+            sk = e['allowed']
+            relmap = {p: os.path.relpath(p, sk) for p in e['dest']}
+            if not e.get('rerun'):
+                st = {'skilldir': sk, 'rel': relmap, 'new': e['new'], 'orig': e['prior'], 'tmps': set()}
+            else:
+                st['tmps'] = set()
+            if files is None:
+                files = sorted(relmap.values())
+                dirs = {r: (os.path.dirname(r) or '.') for r in files}
+            a = {'ev': 'Start', 'run': e['run'], 'rerun': bool(e.get('rerun')),
+                 'prior': {relmap[p]: absfile(p, e['prior'].get(p)) for p in e['dest']}, 'ntmp': strays(e['prior'])}
+            spans.append([len(out) + 1, None, e['run']])
+        elif k == 'Mkdir':
+            a = {'ev': 'Mkdir', 'ok': e['ok'], 'fatal': (not e['ok']) and e.get('err') != 'EEXIST', 'injected': bool(e.get('injected'))}
+        elif k == 'Open':
+            p = e['path']
+            if not (e['creat'] or e['wr']):
+                a = None
+            elif p in st['rel']:
+                a = {'ev': 'DestOpen', 'dst': st['rel'][p]}
+            elif under(p):
+                if e['ok']:
+                    st['tmps'].add(p)
+                a = {'ev': 'Create', 'path': p, 'reldir': os.path.relpath(os.path.dirname(p), st['skilldir']), 'mode': e['mode'],
+                     'excl': e['excl'], 'ok': e['ok'], 'injected': bool(e.get('injected'))}
+            else:
+                a = {'ev': 'Other', 'path': p}
+        elif k == 'Write':
+            d = os.path.dirname(e['path'])
+            full = e['ok'] and any(e['cum'] == h for q, h in st['new'].items() if os.path.dirname(q) == d)
+            a = {'ev': 'Write', 'path': e['path'], 'full': bool(full), 'ok': e['ok'], 'injected': bool(e.get('injected'))}
+        elif k in ('Fsync', 'Close'):
+            if e['path'] in st['tmps']:
+                a = {'ev': 'Sync' if k == 'Fsync' else 'Close', 'path': e['path'], 'ok': e['ok'], 'injected': bool(e.get('injected'))}
+            elif k == 'Fsync':
+                a = {'ev': 'Other', 'path': e['path']}
+        elif k == 'Chmod':
+            a = {'ev': 'Chmod', 'path': e['path'], 'mode': e['mode'], 'ok': e['ok'], 'injected': bool(e.get('injected'))}
+        elif k == 'Rename':
+            a = {'ev': 'Rename', 'path': e['path'], 'dst': st['rel'].get(e.get('dst'), '?'), 'ok': e['ok'], 'injected': bool(e.get('injected'))}
+        elif k == 'Unlink':
+            a = {'ev': 'Unlink', 'path': e['path'], 'ok': e['ok']}
+        elif k == 'Truncate':
+            a = {'ev': 'Other', 'path': e['path']}
+        elif k == 'Exit':
+            a = {'ev': 'Exit', 'code': e['code']}
+        elif k == 'Killed':
+            a = {'ev': 'Killed'}
+        elif k == 'Snapshot':
+            a = {'ev': 'Snapshot', 'dest': {r: absfile(p, e['files'].get(p)) for p, r in st['rel'].items()}, 'ntmp': strays(e['files'])}
+            spans[-1][1] = len(out) + 1
+        if a is not None:
+            out.append(a)
+    return {'files': files or [], 'dir': dirs or {}}, out, spans
+
+
+def install_conformance(w, lines, name):
+    """Every recorded run must be a behaviour of Install.tla (InstallTrace.tla).  A run that is not is dropped and the
+    rest is validated again (at most 8 times).  -> {'runs', 'conforming', 'rejected': [...], 'invariants': text|None}"""
+    meta, alines, spans = abstract_runs(lines)
+    total = len(spans)
+    rejected = []
+    inv = None
+    states = 0
+    for attempt in range(9):
+        if not alines:
+            break
+        r = pl.tlc(w, 'InstallTrace', 'InstallTrace.cfg', workers=1, timeout=3000, name='%s-%d' % (name, attempt), java_opts='-Xss256m',
+                   files={'inst.ndjson': '\n'.join(json.dumps(e) for e in alines) + '\n', 'inst_meta.json': json.dumps(meta)})
+        states = pl.tlc_stats(r['out'])[1]
+        if 'is violated' in r['out']:
+            m = re.search(r'Invariant (\w+) is violated', r['out'])
+            inv = 'invariant %s of Install.tla is violated on a real run: %s' % (m.group(1) if m else '?', r['out'][-1800:])
+            break
+        op = os.path.join(r['dir'], 'inst_out.json')
+        if not os.path.exists(op):
+            raise pl.ExitTwo('InstallTrace validation failed (rc=%s): %s %s' % (r['rc'], r['out'][-2500:], r['err'][-600:]))
+        o = json.load(open(op))
+        if o['reached'] >= o['lines'] + 1:
+            break
+        # the run that contains the first line nobody could consume
+        bad = [sp for sp in spans if sp[0] <= o['reached'] <= (sp[1] or 10 ** 9)]
+        if not bad:
+            raise pl.ExitTwo('InstallTrace stopped at line %d outside every run' % o['reached'])
+        b = bad[0]
+        rejected.append({'run': b[2], 'event': alines[o['reached'] - 1], 'event_index_in_run': o['reached'] - b[0]})
+        # drop the run (and the rerun that follows it, which starts from its end state)
+        drop = [b]
+        nxt = [sp for sp in spans if sp[0] == (b[1] or 0) + 1 and sp[2].endswith('/rerun')]
+        drop += nxt
+        lo, hi = drop[0][0], drop[-1][1]
+        n = hi - lo + 1
+        alines = alines[: lo - 1] + alines[hi:]
+        spans = [sp for sp in spans if sp not in drop]
+        for sp in spans:
+            if sp[0] > hi:
+                sp[0] -= n
+                sp[1] -= n
+    return {'runs': total, 'conforming': total - len(rejected) if len(rejected) < 8 else None, 'rejected': rejected[:8], 'invariants': inv,
+            'states': states}
+
+
+def bind_design(w, rep, lines, name, violations_found):
+    """Is Install.tla still a model of this tree?  (It decides nothing by itself: alarms come from InstallFS.tla.)"""
+    conf = install_conformance(w, lines, name)
+    if conf['invariants'] and not violations_found:
+        rep.problem('Install.tla and InstallFS.tla disagree: ' + conf['invariants'])
+    if conf['rejected']:
+        rep.notes.append('%d recorded run(s) of the real installer are not behaviours of Install.tla (first: run %s at its event %d, %s): the '
+                         'design-level exploration of Install.tla does not speak for this tree; the verdict rests on InstallFS.tla alone'
+                         % (len(conf['rejected']), conf['rejected'][0]['run'], conf['rejected'][0]['event_index_in_run'],
+                            json.dumps(conf['rejected'][0]['event'])[:200]))
+    conf['bound'] = not conf['rejected'] and not conf['invariants']
+    return conf
 
 
 def design_model(w, rep, quick):
@@ -378,7 +525,9 @@ def main_c16(tier):
                 v = occ[0]
                 rep.found(sig, '%s: %d run(s) (agents %s); first: %s %s' % (sig, len(occ), sorted({o['run'].split('/')[0] for o in occ})[:9], v['run'], v['detail'][-200:]),
                           {'run': v['run'], 'how': meta.get(v['run']), 'violation': v})
+            binding = bind_design(w, rep, lines, 'instconf16', bool(groups))
             rep.cov.update({
+                'install_tla_binding': binding,
                 'evaluations': nruns, 'distinct_nontrivial': nruns,
                 'rule': 'one evaluation = one real CLI run under strace for one (agent, flags, prior state); all combinations enumerated',
                 'samples': [{'run': scs[0], 'how': meta['%s/%s/%s' % scs[0]]}, {'run': scs[-1], 'how': meta['%s/%s/%s' % scs[-1]]}],
